@@ -50,7 +50,27 @@ CLAIMED.update({
             "scaling of all non-unit axis lengths",
             "Coq theorem on the code language + ast/skeleton correspondence under size scaling", "DESIGN.md 3/C17"),
 })
-EXTRA_NOTES = {}
+CLAIMED.update({
+    "C02": ("Verified reference solver (Spec/Solve.v: substitution of known values through products and sums over unbounded positive "
+            "integers) with theorems: forced values are the values in every solution, reported contradictions have no solution, a "
+            "determined outcome is a solution (Props/C02.v). einx's sympy-based solver is not modelled; it is held inside the envelope: "
+            "Det => einx reports exactly these shapes/axes, Contra => RankError/AxisSizeError (matches False), free axis => failure, "
+            "anything reported re-checked against all constraints by the extracted solver; lengths up to 2**40",
+            "Coq-verified reference solver + envelope correspondence on solve_shapes / solve_axes / matches", "DESIGN.md 3/C02"),
+    "C10": ("Theorem (Props/C10.v, any number of threads / programs / schedules): if every state-replacing registry method holds the lock "
+            "then the completion order is a serial execution with the same results and final state; the lock table is regenerated from "
+            "frontend/backend.py; the unlocked pinned behaviour is refuted by a concrete schedule. A deterministic scheduler (sys.settrace, "
+            "pre-emption before every source line of backend.py, lock-aware) replays random schedules of 2-3 real threads and compares "
+            "with all serial interleavings evaluated by the extracted registry model",
+            "Coq serialisability proof over an interleaving model + deterministic schedule replay on real threads", "DESIGN.md 3/C10"),
+    "C11": ("Specification select (function of argument, with-stack, argument types and the set of available backends) with theorems: "
+            "order independence under permutation of the declarations, precedence chain, invalid backends never candidates (Props/C11.v); "
+            "Gallina model of BackendRegistryState (memo, lazy factories, latch) compared with fresh real BackendRegistry objects on "
+            "random histories with synthetic frameworks, failing factories, imports and nested with-blocks",
+            "Coq theorems on the specification + model/implementation correspondence on random histories", "DESIGN.md 3/C11"),
+})
+EXTRA_NOTES = {"C10": "Partial: pre-emption inside C code (functools.cache, dict operations) and the tracing/compilation part of a call are not scheduled; only the registry methods are. ",
+               "C11": "The refinement theorem model-get = select is not yet proved for all histories (stated in DESIGN.md); the model is tied to the code by correspondence. "}
 
 
 def main():
